@@ -1,6 +1,8 @@
 //! The n2 database stores information about previous builds for determining
 //! which files are up to date.
 
+#[cfg(n2_verif)]
+use crate::verif::shim as std;
 use crate::{
     densemap, densemap::DenseMap, graph::BuildId, graph::FileId, graph::Graph, graph::Hashes,
     hash::BuildHash,
